@@ -199,6 +199,36 @@ def nameSlot (segs : List Seg) : Option (Nat × NameKind × Bool) :=
 def nameAt (off : Nat) (line : Str) : Option Str :=
   (cppStringLit (line.drop off)).map (·.1)
 
+/-! ### all string literals of a line (a second, table-independent oracle for the harness)
+
+`nameAt` looks at the place the regenerated table gives; if the emitters change shape so that the
+table has no place for a name, this scan still says which strings a line carries. Character
+literals are skipped. Used by the search only; not part of a theorem. -/
+
+/-- skip a character literal body (after the opening `'`): the text after its closing `'` -/
+def skipCharLit : Str → Option Str
+  | [] => none
+  | c :: r =>
+    if c = '\'' then some r
+    else if c = '\\' then (match r with | _ :: r' => skipCharLit r' | [] => none)
+    else if isNewline c then none
+    else skipCharLit r
+
+/-- the values of all string literals of a line, in order; `none` if a literal does not lex -/
+def lineStrings : Nat → Str → Option (List Str)
+  | 0, _ => some []
+  | _ + 1, [] => some []
+  | f + 1, c :: r =>
+    if c = '"' then
+      match lex .norm r with
+      | some (v, rest) => (lineStrings f rest).map (v :: ·)
+      | none => none
+    else if c = '\'' then
+      match skipCharLit r with
+      | some rest => lineStrings f rest
+      | none => none
+    else lineStrings f r
+
 /-! ## floats: the literal's decimal value rounds to the double the query held
 
 Not needed for the theorems (CPython's `repr` is trusted there); evaluated by the harness on every
